@@ -94,7 +94,9 @@ def attr_value(env: Env, kind: str, rng):
 
         return layout_array(np, rng.choice(LAYOUTS), rng.choice(["float32", "int64", "<U2", "bool", "uint8", "float64"]))
     if kind == "AttrType":
-        return env.ts.Tensor(np.float32, (rng.randrange(1, 4),))
+        from harness.props.c11 import TYPE_VARIANTS, mk_type
+
+        return mk_type(env, rng.choice(TYPE_VARIANTS))
     if kind == "AttrDtype":
         return rng.choice([np.int32, np.float64, np.bool_])
     if kind == "AttrTensors":
@@ -122,7 +124,9 @@ def attr_repr(env: Env, ap) -> str:
 
         return "tensor:" + tensor_repr(decode_tensor(env.np, onnx, v))
     if ap.type == AP.TYPE_PROTO:
-        return "type:" + v.SerializeToString().hex()
+        from harness.props.c11 import describe_typeproto
+
+        return "type:" + repr(describe_typeproto(v))
     if ap.type == AP.STRING:
         return "s:" + v.decode()
     if ap.type == AP.STRINGS:
@@ -163,8 +167,10 @@ def given_repr(env: Env, kind: str, v) -> str:
     if kind == "AttrTensor":
         return "tensor:" + tensor_repr(v)
     if kind == "AttrType":
-        tp = onnx.helper.make_tensor_type_proto(onnx.helper.np_dtype_to_tensor_dtype(np.dtype(v.dtype)), v.shape)
-        return "type:" + tp.SerializeToString().hex()
+        from harness.props.c11 import TYPE_VARIANTS, describe_spec, mk_type
+
+        spec = next((s for s in TYPE_VARIANTS if mk_type(env, s) == v), None)
+        return "type:" + repr(describe_spec(np, onnx, spec)) if spec is not None else "type:?"
     if kind == "AttrDtype":
         return "i:" + str(onnx.helper.np_dtype_to_tensor_dtype(np.dtype(v)))
     if kind == "AttrTensors":
@@ -216,6 +222,10 @@ def gen_sig(rng, idx: int, force=None):
     for a in sig["attrs"]:
         inst["attrs"][a["name"]] = not a["optional"] or rng.random() < 0.6
     sig["inst"] = inst
+    if any(k == "variadic" for _, k in sig["inputs"]):
+        inst["vform"] = rng.choice(["list", "list", "tuple", "gen"])
+        if inst["vform"] == "list" and rng.random() < 0.6:
+            inst["vmut"] = rng.choice(["append", "pop", "reverse", "setitem", "clear", "insert0"])
     slots = [s for s in raw_slots(sig) if s]
     if len(slots) >= 2 and rng.random() < 0.35:
         from harness.props.c11 import repeat_patterns
@@ -300,6 +310,7 @@ def instantiate(env: Env, sig, cls, rng, given_inputs=None):
     inst = sig["inst"]
     names, kw = {}, {}
     keep = []
+    caller_list = None
 
     rep = rep_of(sig)
     made = {}
@@ -332,7 +343,9 @@ def instantiate(env: Env, sig, cls, rng, given_inputs=None):
         elif k == "optional":
             kw[n] = mk(f"in_{n}") if inst["present"][n] else None
         else:
-            kw[n] = [mk(f"in_{n}_{i}") for i in range(inst["nvar"])]
+            caller_list = [mk(f"in_{n}_{i}") for i in range(inst["nvar"])]
+            vform = inst.get("vform", "list")
+            kw[n] = tuple(caller_list) if vform == "tuple" else (v for v in list(caller_list)) if vform == "gen" else caller_list
     avals, akw = {}, {}
     arng = __import__("random").Random(__import__("zlib").crc32(sig["name"].encode()) * 8 + sig["version"])
     for a in sig["attrs"]:
@@ -359,6 +372,14 @@ def instantiate(env: Env, sig, cls, rng, given_inputs=None):
         lvl = env.fut.type_warning_level(env.levels[sig["level"]]) if env.can_level else contextlib.nullcontext()
         with lvl:
             node = cls(cls.Attributes(**akw), cls.Inputs(**kw), out_variadic=inst["out_nvar"])
+    if inst.get("vmut") and caller_list is not None:
+        # the caller goes on using its own list after the node has been constructed
+        from harness.props.c11 import mutate_list
+
+        stranger = env.argument(ts.Tensor(np.float32, (2,)))
+        keep.append(stranger)
+        names[id(stranger)] = "in_STRANGER"
+        mutate_list(caller_list, inst["vmut"], stranger)
     node._keep = keep
     return node, names, avals, caught
 
@@ -545,6 +566,8 @@ def _run_case(ck, env: Env, sig, rng, reqs, metas, stats):
         ck.failure("import:opset_req", f"opset_req {node.opset_req}", case)
     stats["absent_optionals"] += sum(1 for x in p.input if x == "")
     stats["repeated_var"] = stats.get("repeated_var", 0) + int(bool(sig["inst"].get("same")))
+    stats["variadic_mutated"] = stats.get("variadic_mutated", 0) + int(bool(sig["inst"].get("vmut")))
+    stats["variadic_gen_or_tuple"] = stats.get("variadic_gen_or_tuple", 0) + int(sig["inst"].get("vform") in ("gen", "tuple"))
     stats["trailing_absent_kept"] += int(len(p.input) > 0 and p.input[-1] == "")
     stats["attrs"] += len(got_attrs)
     ck.count(("node", repr(sig["inputs"]), repr(sig["outputs"]), repr(sig["attrs"]), sig["thook"], sig["vhook"], repr(sig["inst"])))
